@@ -485,6 +485,8 @@ class Translator:
             raise TranslateError(f"scalar access to non-scalar node {n.name} ({n.kind})")
         if len(loc.idxs) != n.ndims:
             raise TranslateError(f"index arity mismatch for {n.name}: {loc.idxs} vs dims {n.dims}")
+        if getattr(n, "const", None) is not None:
+            return n.const
         return n.name + sub(loc.idxs)
 
     def is_shared(self, node: SNode) -> bool:
@@ -957,24 +959,35 @@ class Translator:
                 if s in pos and pos[s] <= pos[b]:
                     heads.add(s)
         counters = {}
-        spin = self.spin_loops.get(key)
-        bnd = self.bound_loops.get(key)
-        for h in heads:
-            if spin is not None or bnd is not None:
-                self.ncounters += 1
-                c = f"lc{self.ncounters}"
-                self.cur.storage.declare("unsigned char", c, [])
-                counters[h] = c
-                self.emit(f"{c} = 0;")
+        lb = self.cfg.get("loops", {}).get(key)
+        for h in sorted(heads):
+            spec = None
+            if isinstance(lb, dict):
+                spec = lb.get(h, lb.get("*"))
+            elif lb is not None:
+                spec = lb
+            if spec is None:
+                continue
+            if not isinstance(spec, tuple):
+                spec = (spec, "assert")
+            self.ncounters += 1
+            c = f"lc{self.ncounters}"
+            self.cur.storage.declare("unsigned char", c, [])
+            counters[h] = (c, spec[0], spec[1])
+        inst.counters = counters
+        inst.pos = pos
+        if 0 in counters:
+            self.emit(f"{counters[0][0]} = 0;")
         for b in order:
             blk = fn.blocks[b]
+            inst.curbb = b
             self.cur.label(inst.label(b))
             if b in counters:
-                c = counters[b]
-                if spin is not None:
-                    self.emit(f"if ({c} >= {spin}) {{ __CPROVER_assume(0); }} {c}++;")
+                c, K, mode = counters[b]
+                if mode == "assume":
+                    self.emit(f"if ({c} >= {K}) {{ __CPROVER_assume(0); }} {c}++;")
                 else:
-                    self.emit(f'if ({c} >= {bnd}) {{ __CPROVER_assert(0, "BOUND loop bound {bnd} in {key}"); __CPROVER_assume(0); }} {c}++;')
+                    self.emit(f'if ({c} >= {K}) {{ __CPROVER_assert(0, "BOUND loop bound {K} in {key} bb{b}"); __CPROVER_assume(0); }} {c}++;')
             for st in blk.stmts:
                 if st.kind == "nop":
                     continue
@@ -999,10 +1012,20 @@ class Translator:
         self.stack.pop()
         return inst
 
+    def jump(self, inst: FnInstance, bb: int, cond: str = None):
+        reset = ""
+        cs = getattr(inst, "counters", {})
+        if bb in cs and inst.pos.get(bb, 0) > inst.pos.get(inst.curbb, 0):
+            reset = f"{cs[bb][0]} = 0; "
+        if cond:
+            self.emit(f"if ({cond}) {{ {reset}goto {inst.label(bb)}; }}")
+        else:
+            self.emit(f"{reset}goto {inst.label(bb)};")
+
     def terminator(self, inst: FnInstance, t: Term):
         k = t.kind
         if k == "goto":
-            self.emit(f"goto {inst.label(t.targets['return'])};")
+            self.jump(inst, t.targets['return'])
         elif k == "return":
             self.emit(f"goto {inst.ret_label};")
         elif k == "unreachable":
@@ -1016,9 +1039,9 @@ class Translator:
                 if val == "otherwise":
                     other = bb
                 else:
-                    self.emit(f"if ({v.expr} == {val}) goto {inst.label(bb)};")
+                    self.jump(inst, bb, f"{v.expr} == {val}")
             if other is not None:
-                self.emit(f"goto {inst.label(other)};")
+                self.jump(inst, other)
             else:
                 self.emit('__CPROVER_assume(0);')
         elif k == "assert":
@@ -1026,15 +1049,15 @@ class Translator:
             cond = f"!{v.expr}" if t.negate else v.expr
             msg = re.sub(r'[^A-Za-z0-9 _+*/<>=-]', "", t.msg)[:60]
             self.emit(f'__CPROVER_assert({cond}, "RUST-PANIC arithmetic: {msg}"); __CPROVER_assume({cond});')
-            self.emit(f"goto {inst.label(t.targets['success'])};")
+            self.jump(inst, t.targets['success'])
         elif k == "drop":
             loc = self.eval_place(inst, t.place)
             self.drop(loc)
-            self.emit(f"goto {inst.label(t.targets['return'])};")
+            self.jump(inst, t.targets['return'])
         elif k == "call":
             self.call(inst, t)
             if "return" in t.targets:
-                self.emit(f"goto {inst.label(t.targets['return'])};")
+                self.jump(inst, t.targets['return'])
             else:
                 self.emit("__CPROVER_assume(0);")
         else:
